@@ -320,6 +320,73 @@ impl<A: Elem, B: Elem> VecPair<A, B> {
                     s_call(|| TagIter::<B>::new(&ids, tag0, HintKind::Exact).collect::<Vec<B>>()),
                 )
             }
+            VCtor::CollectInOption { n, tag0, stop_at } | VCtor::CollectInResult { n, tag0, stop_at } => {
+                let ids = fresh_ids(n);
+                let is_opt = matches!(c, VCtor::CollectInOption { .. });
+                let stop = stop_at.filter(|&k| k < n);
+                // the source stops being consumed at the first None / Err: create only what is taken
+                let rb = b_call(|| {
+                    let mut i = 0usize;
+                    let it = std::iter::from_fn(|| {
+                        let _g = harness_scope();
+                        if i >= ids.len() {
+                            return None;
+                        }
+                        let k = i;
+                        i += 1;
+                        if Some(k) == stop {
+                            Some(Err(k as u32))
+                        } else {
+                            Some(Ok(A::mk(ids[k], tag0.wrapping_add(k as u32) % 11)))
+                        }
+                    });
+                    if is_opt {
+                        it.map(|r| r.ok()).collect_in::<Option<BVec<A>>>(bump).ok_or(0u32)
+                    } else {
+                        it.collect_in::<Result<BVec<A>, u32>>(bump)
+                    }
+                });
+                let rs = s_call(|| {
+                    let mut i = 0usize;
+                    let it = std::iter::from_fn(|| {
+                        if i >= ids.len() {
+                            return None;
+                        }
+                        let k = i;
+                        i += 1;
+                        if Some(k) == stop {
+                            Some(Err(k as u32))
+                        } else {
+                            Some(Ok(B::mk(ids[k], tag0.wrapping_add(k as u32) % 11)))
+                        }
+                    });
+                    if is_opt {
+                        it.map(|r| r.ok()).collect::<Option<Vec<B>>>().ok_or(0u32)
+                    } else {
+                        it.collect::<Result<Vec<B>, u32>>()
+                    }
+                });
+                // normalise: Ok(vec) keeps the vector, Err(code) leaves an empty one
+                let mut err_codes = (None, None);
+                let rb2 = rb.map(|r| match r {
+                    Ok(v) => v,
+                    Err(e) => {
+                        err_codes.0 = Some(e);
+                        BVec::new_in(bump)
+                    }
+                });
+                let rs2 = rs.map(|r| match r {
+                    Ok(v) => v,
+                    Err(e) => {
+                        err_codes.1 = Some(e);
+                        Vec::new()
+                    }
+                });
+                if err_codes.0 != err_codes.1 {
+                    extra = Some(("C13", "collect-in-error-differs", format!("{:?} vs std {:?}", err_codes.0, err_codes.1)));
+                }
+                (rb2, rs2)
+            }
             VCtor::MacroRepeat { n, tag } => {
                 let n = n.min(300);
                 let id = track::fresh_id();
